@@ -35,4 +35,9 @@ CHECKS = {
   "text": "About 250k (quick) / 7M (thorough) byte strings built from prefix set x opcode map (1-byte, 0F, 0F38, 0F3A, x87) x ModRM/SIB class x fill, plus complete ModRM and SIB grids and all control-transfer forms, are decoded by miasmX and by objdump; length and every operand field of miasmX's Intel rendering are compared with the reference after notation normalisation; a disagreement counts only when LLVM's decoder agrees with objdump. instr.b / instr.l consistency and re-decoding of exactly the consumed bytes are checked on every accepted string.",
   "note": "Trusted: binutils 2.40 objdump and LLVM 14 where they agree; vlib/nf.py (synonym table, normalisation). Out of domain and counted: strings a decoder rejects, strings with a prefix that has no effect, LOCK on non-lockable forms, F2/F3 forms that later ISA extensions reassigned. Displacement/immediate values are sampled at boundary fills, not exhausted. ~105 existing decoder imprecisions are listed as open known findings keyed by (field, prefixes, opcode, mnemonic).",
  },
+ "C17": {
+  "technique": "enumeration of all control-transfer encodings x boundary displacements x stream offsets (incl. near 2^32), classification oracle derived from the reference decoder's mnemonic, target computed from the raw displacement bytes",
+  "text": "Every jcc/jmp/call/loop/jecxz/ret/iret/int/hlt/ud2 form (rel8/rel16/rel32 at boundary displacements, indirect and far forms, with operand/address-size and segment prefixes) and a stratified sample of all other opcode rows are decoded through a duck-typed stream at 10 offsets (0 .. 2^32-1). getnextflow, breakflow/splitflow/dstflow and getdstflow are compared with the architectural class of objdump's mnemonic and with offset+length+sext(disp) truncated to the operand size.",
+  "note": "Trusted: objdump's mnemonic and length; the class table of the property statement. Strings with superfluous prefixes (objdump prints data16 before rel8 branches) or with a C01 length disagreement (rel16 forms under 0x66, a listed C01 finding) are not judged.",
+ },
 }
